@@ -1,7 +1,7 @@
 (* C17 -- protobuf write/read round trip up to ProtobufEq, both writer back ends.
    This file only pins statements; proofs live in Proto/Proofs.v.  Where the faithful model refutes
    the property the witness is pinned here (closed by computation) together with the class predicate. *)
-From A1 Require Import Proto.Wire Proto.Rw Proto.Proofs.
+From A1 Require Import Proto.Wire Proto.Rw Proto.Proofs Proto.RwLemmas Proto.RoundtripProofs.
 Local Open Scope N_scope.
 
 (** ** proved for every input *)
@@ -46,6 +46,25 @@ Theorem C17_backends_agree_partial : forall m b x oy,
     pwrite_slice m (N.of_nat (length bs) + 3) flat_ty v = Ok bs /\
     pwrite_slice m (N.of_nat (length bs) - 1) flat_ty v = Err E_IO.
 Proof. exact backends_agree_flat. Qed.
+
+(** ** the message-level round trip, unbounded: every generated type (SEQUENCE / SET / tuple struct with any number of
+       required / OPTIONAL / DEFAULT components of any kind, nested to any depth; SEQUENCE OF of scalars, ENUMERATED,
+       messages and CHOICEs; CHOICE; ENUMERATED) outside the finding classes, every value, both profiles.
+       [wf_pty]: top-level SEQUENCE / CHOICE / ENUMERATED with the sizes a generated type has (non-empty ENUMERATED and
+       CHOICE, at most 2^32 variants, field numbers below 2^29); [wf_pval]: the value inhabits the type (a BitVec may
+       hold excess bytes); [Known_C17]: the type contains a CHOICE with a NULL or SEQUENCE OF alternative, a
+       SEQUENCE OF SEQUENCE OF or a SEQUENCE OF NULL, or the value contains a BitVec with excess bytes.
+       The guard [nlen bs < two64] says the encoding fits a 64-bit address space (always true of a Vec<u8>). *)
+Theorem C17_roundtrip : forall m t v, wf_pty t -> wf_pval t v -> ~ Known_C17 t v ->
+  exists bs, pwrite m t v = Ok bs /\
+    (nlen bs < two64 -> exists v', pread m t bs = Ok v' /\ peq t v v' = true).
+Proof. exact roundtrip_unbounded. Qed.
+
+(* the fixed-slice back end produces exactly the bytes of the growable one when they fit and Err(Io) otherwise:
+   every type, every value (no well-formedness needed), every capacity, both profiles *)
+Theorem C17_backends_agree : forall m t v bs cap, pwrite_vec m t v = Ok bs ->
+  pwrite_slice m cap t v = if N.of_nat (length bs) <=? cap then Ok bs else Err E_IO.
+Proof. exact backends_agree. Qed.
 
 (** ** classes in which the faithful model refutes the property *)
 (* a CHOICE with a NULL alternative (nothing is written, read_choice needs a tag) or a SEQUENCE OF alternative
@@ -120,6 +139,48 @@ Proof.
   exists [10; 9; 224; 0; 0; 0; 0; 0; 0; 0; 3]. vm_compute. repeat split; reflexivity.
 Qed.
 
+(* the type part of [Known_C17] ([Known_ty], closed under nesting) contains the classes above, and a type in it is
+   never in the proved fragment *)
+Theorem C17_known_classes :
+  (forall t, Known_choice_alternative t -> Known_ty t) /\ (forall t, Known_nested_list t -> Known_ty t) /\
+  (forall t, Known_ty t -> good t = false) /\
+  (forall t v, Known_bitvec_excess v -> wf_val t v = true -> False).
+Proof.
+  split; [|split; [|split]].
+  - intros t (alts & -> & [H | [e H]]); [apply K_choice_null, H|eapply K_choice_list, H].
+  - intros t (e & ->). apply K_nested_list.
+  - exact known_not_good.
+  - intros t v (bytes & n & -> & Hne) Hwf. destruct t; try discriminate Hwf. cbn [wf_val] in Hwf.
+    apply andb_true_iff in Hwf. destruct Hwf as [Hwf _]. apply andb_true_iff in Hwf. destruct Hwf as [_ Hwf].
+    apply N.eqb_eq in Hwf. contradiction.
+Qed.
+
+(* NEW class found while proving C17_roundtrip (model level): the elements of a SEQUENCE OF NULL leave no trace on the
+   wire (write_null writes nothing, the element loop resets the counter), so the list reads back empty *)
+Definition t_listnull := TSeq [(false, TSeqOf TNull); (false, TInt KU8)].
+Theorem C17_refuted_list_of_null :
+  let v := VSeq [VList [VNull; VNull]; VInt 7] in
+  Known_ty t_listnull /\ wf_val t_listnull v = true /\
+  pwrite_vec dev_mode t_listnull v = Ok [16; 7] /\
+  pread dev_mode t_listnull [16; 7] = Ok (VSeq [VList []; VInt 7]) /\
+  peq t_listnull v (VSeq [VList []; VInt 7]) = false.
+Proof.
+  split; [apply (K_in_seq _ false (TSeqOf TNull)); [left; reflexivity|apply K_list_null]|].
+  vm_compute. repeat split; reflexivity.
+Qed.
+
+(* the writer is left with is_root = false after a top-level CHOICE (write_choice takes the flag and never restores
+   it, unlike write_set_or_sequence): a second value written with the same writer is wrapped as field 2 *)
+Example C17_writer_reuse_after_choice :
+  let t := TChoice [TInt KU8; TBytes] in
+  (match wr dev_mode t (VChoice 0 (VInt 5)) (wst0 None) with
+   | Ok s1 => match wr dev_mode t (VChoice 0 (VInt 5)) s1 with Ok s2 => Some (w_root s1, w_buf s2) | _ => None end
+   | _ => None end) = Some (false, [8; 5; 18; 2; 8; 5]) /\
+  (match wr dev_mode (TSeq [(false, TInt KU8)]) (VSeq [VInt 5]) (wst0 None) with
+   | Ok s1 => match wr dev_mode (TSeq [(false, TInt KU8)]) (VSeq [VInt 5]) s1 with Ok s2 => Some (w_root s1, w_buf s2) | _ => None end
+   | _ => None end) = Some (true, [8; 5; 8; 5]).
+Proof. vm_compute. split; reflexivity. Qed.
+
 (** ** C04 (protobuf reader on arbitrary bytes) *)
 Definition t_inner := TSeq [(false, TInt KU16); (true, TStr)].
 (* still reachable through the public primitive ProtoRead::read_bit_vec (op 4015):
@@ -161,6 +222,30 @@ Example C17_nonvacuous :
   wf_val t_optnull (VSeq [VOpt (Some VNull); VOpt None; VInt 5]) = true.
 Proof. vm_compute. repeat split; congruence. Qed.
 
+(* non-vacuity of C17_roundtrip: a type with nesting, lists, a CHOICE, OPTIONALs, a BitVec and a NULL satisfies the
+   hypotheses; the value read back differs from the one written (the empty OPTIONAL list comes back absent) *)
+Definition t_rich := TSeq [(false, TBool); (true, TStr);
+   (false, TSeqOf (TSeq [(false, TInt KU16); (true, TStr)]));
+   (false, TChoice [TInt KI16; TSeq [(false, TInt KU16)]; TEnum 3]);
+   (true, TSeqOf (TInt KU8)); (false, TBits); (false, TNull); (false, TInt KI64)].
+Definition v_rich := VSeq [VBool true; VOpt None; VList [VSeq [VInt 300; VOpt (Some (VStr [104]))]; VSeq [VInt 1; VOpt None]];
+   VChoice 1 (VSeq [VInt 7]); VOpt (Some (VList [])); VBits [160] 3; VNull; VInt (-2)].
+Example C17_roundtrip_nonvacuous :
+  wf_pty t_rich /\ wf_pval t_rich v_rich /\ ~ Known_C17 t_rich v_rich /\
+  pwrite dev_mode t_rich v_rich =
+    Ok [8; 1; 26; 6; 8; 172; 2; 18; 1; 104; 26; 2; 8; 1; 34; 4; 18; 2; 8; 7; 50; 9; 160; 0; 0; 0; 0; 0; 0; 0; 3; 64; 3] /\
+  pread dev_mode t_rich
+    [8; 1; 26; 6; 8; 172; 2; 18; 1; 104; 26; 2; 8; 1; 34; 4; 18; 2; 8; 7; 50; 9; 160; 0; 0; 0; 0; 0; 0; 0; 3; 64; 3] =
+    Ok (VSeq [VBool true; VOpt None; VList [VSeq [VInt 300; VOpt (Some (VStr [104]))]; VSeq [VInt 1; VOpt None]];
+              VChoice 1 (VSeq [VInt 7]); VOpt None; VBits [160] 3; VNull; VInt (-2)]) /\
+  pwrite_slice dev_mode 33 t_rich v_rich = pwrite_vec dev_mode t_rich v_rich /\
+  pwrite_slice dev_mode 32 t_rich v_rich = Err E_IO.
+Proof.
+  split; [split; reflexivity|]. split; [reflexivity|]. split.
+  - intros [K|E]; [apply known_not_good in K; vm_compute in K; discriminate K|vm_compute in E; discriminate E].
+  - vm_compute. repeat split; reflexivity.
+Qed.
+
 Print Assumptions C17_varint_roundtrip.
 Print Assumptions C17_zigzag_roundtrip.
 Print Assumptions C17_tag_roundtrip.
@@ -168,6 +253,10 @@ Print Assumptions C17_number_roundtrip.
 Print Assumptions C17_roundtrip_partial.
 Print Assumptions C17_roundtrip_flat_partial.
 Print Assumptions C17_backends_agree_partial.
+Print Assumptions C17_roundtrip.
+Print Assumptions C17_backends_agree.
+Print Assumptions C17_known_classes.
+Print Assumptions C17_refuted_list_of_null.
 Print Assumptions C17_refuted_choice_null.
 Print Assumptions C17_refuted_choice_list.
 Print Assumptions C17_refuted_nested_list.
